@@ -238,7 +238,7 @@ static unsigned refSplit(const uint8_t *s, const unsigned n, RefLine *out, const
     return nl;
 }
 
-// KNOWN-FINDING candidate (see concurrent()): does a read boundary at stream position c (the read ends with byte c-1) fall
+// (no longer used for an exclusion; kept for the reach label) does a read boundary at stream position c (the read ends with byte c-1) fall
 // inside or right behind the channel-ID digits of a line, before its separating space, while that digit prefix or the line's
 // complete channel-ID names a request that is still outstanding when the line starts?
 static bool splitsLiveChannelId(const uint8_t *st, const unsigned n, const unsigned c, const RefLine *lines, const uint64_t *ids, const int *answeredBy)
@@ -305,18 +305,10 @@ static void concurrent(const uint64_t idA, const uint64_t idB, const unsigned id
 #else
     const unsigned c2 = n;
 #endif
-#ifndef C47_INCLUDE_SPLIT_ID
-    // KNOWN-FINDING candidate: helperHandleRead() calls srv->popRequest(i) with the channel-ID digits seen SO FAR even when it has
-    // just decided (needsMore) that the ID field is not complete because the read ended inside or right behind the digits. The
-    // request named by that prefix is taken off the list at once; the next read then sees a non-nil replyXaction and appends the
-    // WHOLE line, ID digits included, to that request's reply. Observed consequences (ids 1 and 12 outstanding):
-    //   reads "1" | "4 rb LF"  -> request 1 is called back with "14 rb" (a reply for the unknown channel 14 applied to request 1)
-    //   reads "12" | " rh LF"  -> request 12 gets "12 rh" instead of "rh"
-    //   reads "0" | "1 rd LF"  -> prefix 0 is unknown, the line is skipped (ignoreToEom): request 1 never gets its reply "01 rd"
-    // Exactly the deliveries with such a read boundary are excluded here; run with C47_SPLIT_ID=1 to see the counterexamples.
-    vf_assume(!splitsLiveChannelId(st, n, c1, lines, ids, answeredBy));
-    vf_assume(!splitsLiveChannelId(st, n, c2, lines, ids, answeredBy));
-#endif
+    // (helperHandleRead() used to call srv->popRequest(i) with the channel-ID digits seen so far even when the read had ended
+    // inside or right behind the digits: reads "1" | "4 rb LF" answered request 1 with "14 rb", reads "12" | " rh LF" answered
+    // request 12 with "12 rh". Repaired in /repo by the 'fix: helper reply dispatched by a partially received channel-ID'
+    // commit, so deliveries with such a read boundary are part of what is checked.)
     const unsigned cuts[3] = {c1, c2, n};
     unsigned delivered = 0;
     for (unsigned k = 0; k < 3 && srv->flags.closing == false; ++k) {
